@@ -193,6 +193,10 @@ enum Op {
     // the node hands the signer the preimage of the incoming HTLC (not an operation of the model);
     // true = some later request that writes the node entry (add_keysend) follows at once
     Fulfill(Key, bool),
+    /// the node approves a payment (keysend) to the very hash of the HTLC offered to us on this
+    /// channel, as in a circular payment: an approval and a payment record for that hash exist
+    /// when the preimage arrives.  Not a step of the model (nothing it tracks moves).
+    Approve(Key),
 }
 
 #[derive(Clone, Debug, PartialEq)]
@@ -231,6 +235,7 @@ struct Sess {
     // the harness's OWN record of the preimages it handed to the signer, and what that made of the
     // incoming HTLC at the moment the counterparty's commitment first confirmed
     given: BTreeSet<Key>,
+    approved: BTreeSet<Key>,
     frozen: BTreeMap<Key, bool>,
     incoming_c: BTreeMap<u64, (Key, String, String)>, // commitment id -> (channel, kind if claimable, kind if not)
     keysends: u8,
@@ -279,6 +284,7 @@ impl Sess {
             forgotten_max: None,
             view_base: BTreeMap::new(),
             given: BTreeSet::new(),
+            approved: BTreeSet::new(),
             frozen: BTreeMap::new(),
             incoming_c: BTreeMap::new(),
             keysends: 0,
@@ -915,6 +921,24 @@ impl Sess {
             }
             return true;
         }
+        if let Op::Approve(key) = op {
+            let ok = matches!(self.last.mem.get(key), Some(SlotView::Ready { .. }))
+                && self.chans.get(key).map(|c| c.incoming).unwrap_or(false)
+                && !self.frozen.contains_key(key)
+                && !self.given.contains(key)
+                && !self.approved.contains(key);
+            if ok {
+                let hinfo = self.incoming_htlc(*key);
+                let secp = Secp256k1::new();
+                let payee = PublicKey::from_secret_key(&secp, &lightning_signer::bitcoin::secp256k1::SecretKey::from_slice(&[3u8; 32]).unwrap());
+                let ok = self.node.add_keysend(payee, hinfo.payment_hash, 1000).expect("add_keysend");
+                assert!(ok, "keysend refused");
+                self.approved.insert(*key);
+                self.jsteps.push(json!({"add_keysend_for_the_hash_of_the_htlc_offered_to_us": [key.0, key.1]}));
+                self.bump("approved_incoming_hash");
+            }
+            return true;
+        }
         if let Op::Add(ids) = op {
             for id in ids.iter() {
                 if let Some((key, _, _)) = self.incoming_c.get(id) {
@@ -925,7 +949,7 @@ impl Sess {
             }
         }
         match op {
-            Op::Fulfill(_, _) => unreachable!(),
+            Op::Fulfill(_, _) | Op::Approve(_) => unreachable!(),
             Op::New(key) => {
                 let key = *key;
                 self.chan(key);
@@ -1389,6 +1413,13 @@ fn scripted(args: &Args) {
         New(i3), Setup(i3, n.clone()), Fulfill(i3, true), Restart, Add(vec![tid(0, F)]), Add(vec![tid(0, C)]), Add(vec![tid(0, S)]), Forget(i3),
         Burst(md), Heartbeat, Restart, Heartbeat,
     ]));
+    // the same with a payment to the very hash approved first (circular payment): the restored
+    // node must still know the preimage
+    scripts.push(("incoming-htlc-approved-hash-preimage-then-restart", 1000, vec![
+        New(i3), Setup(i3, n.clone()), Approve(i3), Fulfill(i3, false), Restart, Add(vec![tid(0, F)]), Add(vec![tid(0, C)]), Add(vec![tid(0, S)]), Forget(i3),
+        Burst(md), Heartbeat, Restart, Heartbeat, Add(vec![tid(0, H)]), Burst(md), Heartbeat, Add(vec![tid(0, X)]),
+        Burst(md.saturating_sub(2)), Heartbeat, Add(vec![]), Heartbeat,
+    ]));
     scripts.push(("incoming-htlc-preimage-no-restart", 1000, vec![
         New(i3), Setup(i3, n.clone()), Add(vec![tid(0, F)]), Fulfill(i3, false), Add(vec![tid(0, C), tid(0, S)]), Forget(i3),
         Burst(md), Heartbeat, Add(vec![tid(0, H), tid(0, X)]), Burst(md.saturating_sub(1)), Heartbeat,
@@ -1429,6 +1460,9 @@ fn random(args: &Args, malformed: bool) {
             let k: Key = (rng.below(2), 3);
             let mut pre: Vec<Op> = vec![Op::New(k), Op::Setup(k, SetupKind::Normal)];
             if rng.chance(2, 3) {
+                if rng.chance(1, 3) {
+                    pre.push(Op::Approve(k));
+                }
                 pre.push(Op::Fulfill(k, rng.chance(1, 3)));
             }
             if rng.chance(1, 2) {
@@ -1599,7 +1633,12 @@ fn random(args: &Args, malformed: bool) {
                 }
                 _ => {
                     let inc: Vec<Key> = ready.iter().cloned().filter(|k| s.chans[k].incoming && !s.frozen.contains_key(k) && !s.given.contains(k)).collect();
-                    if !inc.is_empty() && rng.chance(1, 2) { Op::Fulfill(*rng.pick(&inc), rng.chance(1, 3)) } else { Op::Restart }
+                    if !inc.is_empty() && rng.chance(1, 2) {
+                        let k = *rng.pick(&inc);
+                        if !s.approved.contains(&k) && rng.chance(1, 3) { Op::Approve(k) } else { Op::Fulfill(k, rng.chance(1, 3)) }
+                    } else {
+                        Op::Restart
+                    }
                 }
             };
             if matches!(op, Op::Remove) {
